@@ -169,6 +169,80 @@ theorem trun_expandAll (T : Top D S F) (v : Variant) (hit : F → F → Bool) (c
       · rfl
       · split <;> simp [evalCσ]
 
+/-! ### composite likelihood -/
+
+/-- `evaluate` leaves the trial data manager's data and source alone -/
+theorem tstep_eval_data_src (T : Top D S F) (v : Variant) (hit : F → F → Bool) (cfg : Cfg)
+    (t : TSt D S F) (q : Query F) :
+    (tstep T v hit cfg t (.evaluate q)).1.base.data = t.base.data ∧
+    (tstep T v hit cfg t (.evaluate q)).1.base.src = t.base.src := by
+  simp only [tstep]
+  split
+  · exact ⟨rfl, rfl⟩
+  · split <;> simp [evalCσ]
+
+def clastData (d0 : D) : List (FOp D S F) → D
+  | [] => d0
+  | .initTrial d :: ops => clastData d ops
+  | _ :: ops => clastData d0 ops
+
+def clastSrc (s0 : S) : List (FOp D S F) → S
+  | [] => s0
+  | .changeSource s :: ops => clastSrc s ops
+  | _ :: ops => clastSrc s0 ops
+
+theorem lower_lastData (C : Comp D S F) : ∀ (fops : List (FOp D S F)) (d0 : D) (s0 : S),
+    lastData d0 (lower C s0 fops) = clastData d0 fops ∧
+    lastSrc s0 (lower C s0 fops) = clastSrc s0 fops := by
+  intro fops
+  induction fops with
+  | nil => intro d0 s0; exact ⟨rfl, rfl⟩
+  | cons op fops ih =>
+    intro d0 s0
+    cases op with
+    | initTrial d => simpa [lower, lastData, lastSrc, clastData, clastSrc] using ih d s0
+    | changeSource s => simpa [lower, lastData, lastSrc, clastData, clastSrc] using ih d0 s
+    | cevaluate q =>
+      simp only [lower, clastData, clastSrc]
+      cases C.fj s0 q with
+      | nil => simpa using ih d0 s0
+      | cons f0 fr => simpa [lastData, lastSrc] using ih d0 s0
+
+/-- **dataset 0 inside the composite**: along a composite history (as real call sequences) the
+modelled object graph goes through exactly the single-dataset history `lower` — every composite
+evaluate is an evaluate at `ns·f₀` — whatever the further datasets do -/
+theorem crun_lower (C : Comp D S F) (v : Variant) (hit : F → F → Bool) (cfg : Cfg) :
+    ∀ (fops : List (FOp D S F)) (c : CSt D S F),
+    (crun C v hit cfg c (cexpandAll c.t.base.data fops)).1.t =
+      (trun C.T v hit cfg c.t (expandAll c.t.base.data (lower C c.t.base.src fops))).1 := by
+  intro fops
+  induction fops with
+  | nil => intro c; rfl
+  | cons op fops ih =>
+    intro c
+    cases op with
+    | initTrial d =>
+      simp only [cexpandAll, crun, cstep, lower, expandAll, expand, List.cons_append, List.nil_append, trun]
+      exact ih ⟨_, _, _⟩
+    | changeSource s =>
+      simp only [cexpandAll, crun, cstep, lower, expandAll, expand, List.cons_append, List.nil_append, trun]
+      exact ih ⟨_, _, _⟩
+    | cevaluate q =>
+      simp only [cexpandAll, crun, cstep, lower]
+      cases hf : C.fj c.t.base.src q with
+      | nil => simpa using ih c
+      | cons f0 fr =>
+        have hds := tstep_eval_data_src C.T v hit cfg c.t (q0 q f0)
+        simp only [List.cons_append, List.nil_append, expandAll, expand, trun]
+        split
+        · have := ih ⟨(tstep C.T v hit cfg c.t (.evaluate (q0 q f0))).1, some (f0 :: fr),
+            some ((othersEval C c.t.base.data c.t.base.src q fr).map (·.2.2))⟩
+          simp only [hds.1, hds.2] at this
+          exact this
+        · have := ih ⟨(tstep C.T v hit cfg c.t (.evaluate (q0 q f0))).1, some (f0 :: fr), c.nsg2⟩
+          simp only [hds.1, hds.2] at this
+          exact this
+
 end refine
 
 end C06
